@@ -9,7 +9,7 @@
      dry_model q W k files the model of src/linters/dry built from Gen/DryGen.v under quirk vector q
    Domain: 1 <= W (min_duplicate_lines; the correspondence check uses W >= 2), 2 <= k (min_occurrences). *)
 From TL Require Import Lib.Base Lib.GenTypes Model.DryBase Model.DryPipe Gen.DryGen Model.Dry Model.DrySpec
-     Model.DryRun Model.DryWitness Actual.DryActual Proofs.DryGreedy Proofs.DryStageB Proofs.DryStageA Proofs.DryMain Proofs.DryMsg Proofs.DryOracle Proofs.DrySupp Model.DryFilter Proofs.DryFilterP.
+     Model.DryRun Model.DryWitness Actual.DryActual Proofs.DryGreedy Proofs.DryStageB Proofs.DryStageA Proofs.DryMain Proofs.DryMsg Proofs.DryOracle Proofs.DrySupp Model.DryFilter Proofs.DryFilterP Proofs.DryTextFilters.
 
 (* 0. With the two text flags off the model built from the source IS the reference pipeline: exact equality of the
       reported list, for all projects and all W, k - whether the overlap test of the violation filter is the
@@ -243,6 +243,85 @@ Theorem C03_kwarg_filter_literals : dry_kwarg_cmp = CGe /\ dry_kwarg_num = 4 /\ 
   /\ (forall a b s e, dry_call_contains a b s e = call_contains_ref a b s e).
 Proof. exact gen_kwarg_filter. Qed.
 Print Assumptions C03_kwarg_filter_literals.
+
+(* 17. The three text-only block filters and the filter registry inside the model (block_filter.py ImportGroupFilter,
+       LoggerCallFilter, ExceptionReraiseFilter, BlockFilterRegistry; file_analyzer.py / config.py dry.filters).
+       The filters and the registry built from the source's literals are the documented ones; each filter fires only
+       in the documented situation, for every text and line range; every stored window of W code lines spans at least
+       W non-blank source lines, so LoggerCallFilter can never drop a window when W >= 2 and ExceptionReraiseFilter
+       never when W >= 3; and for W >= 3 the registry keeps every window that holds an ordinary (non-import) line and
+       is not a keyword-argument block of a multi-line call - whatever dry.filters says.  (The model's answers are
+       compared with the real filters and the real registry on windows and short ranges of generated files on every
+       run, and no stored row may be one the model's registry drops.) *)
+Theorem C03_text_filters_are_documented : forall raw s e,
+  model_import_filter raw s e = import_filter_ref raw s e /\ model_logger_filter raw s e = logger_filter_ref raw s e
+  /\ model_reraise_filter raw s e = reraise_filter_ref raw s e.
+Proof. exact model_text_filters_are_ref. Qed.
+Print Assumptions C03_text_filters_are_documented.
+Theorem C03_registry_is_documented : forall configured custom calls raw s e,
+  model_registry configured custom calls raw s e = registry_ref configured custom calls raw s e.
+Proof. exact model_registry_is_ref. Qed.
+Print Assumptions C03_registry_is_documented.
+Theorem C03_import_filter_sound : forall raw s e, import_filter_ref raw s e = true ->
+  forall l, In l (slice_lines raw s e) ->
+    py_strip l = EmptyString \/ str_prefix "import " (py_strip l) = true \/ str_prefix "from " (py_strip l) = true.
+Proof. exact import_filter_sound. Qed.
+Print Assumptions C03_import_filter_sound.
+Theorem C03_logger_filter_sound : forall raw s e, logger_filter_ref raw s e = true ->
+  exists t, stripped_nonempty (slice_lines raw s e) = [t] /\ logger_line_ref t = true.
+Proof. exact logger_filter_sound. Qed.
+Print Assumptions C03_logger_filter_sound.
+Theorem C03_logger_line_shape : forall t, logger_line_ref t = true ->
+  exists w0 pre o m w rest, all_ws w0 /\ (pre = EmptyString \/ pre = "self.") /\ In o logger_objs_ref /\ In m logger_meths_ref /\ all_ws w /\
+    t = (w0 ++ pre ++ o ++ "." ++ m ++ w ++ String "(" rest)%string.
+Proof. exact logger_line_shape. Qed.
+Print Assumptions C03_logger_line_shape.
+Theorem C03_reraise_filter_sound : forall raw s e, reraise_filter_ref raw s e = true ->
+  exists a b, stripped_nonempty (slice_lines raw s e) = [a; b] /\
+              str_prefix "except " a = true /\ str_ends a ":" = true /\ str_prefix "raise " b = true /\ str_contains " from " b = true.
+Proof. exact reraise_filter_sound. Qed.
+Print Assumptions C03_reraise_filter_sound.
+Theorem C03_window_spans_W_nonblank_lines : forall W files b, 1 <= W -> In b (ref_rows W files) ->
+  W <= List.length (stripped_nonempty (slice_lines (raw_lines (nth_file files (r_file b))) (r_start b) (r_end b))).
+Proof. exact window_spans_W_nonblank. Qed.
+Print Assumptions C03_window_spans_W_nonblank_lines.
+Theorem C03_logger_filter_never_drops_a_window : forall W files b, 2 <= W -> In b (ref_rows W files) ->
+  logger_filter_ref (raw_lines (nth_file files (r_file b))) (r_start b) (r_end b) = false.
+Proof. exact logger_filter_spares_windows. Qed.
+Print Assumptions C03_logger_filter_never_drops_a_window.
+Theorem C03_reraise_filter_never_drops_a_window : forall W files b, 3 <= W -> In b (ref_rows W files) ->
+  reraise_filter_ref (raw_lines (nth_file files (r_file b))) (r_start b) (r_end b) = false.
+Proof. exact reraise_filter_spares_windows. Qed.
+Print Assumptions C03_reraise_filter_never_drops_a_window.
+Theorem C03_registry_keeps_ordinary_windows : forall W files b configured custom calls, 3 <= W -> In b (ref_rows W files) ->
+  let raw := raw_lines (nth_file files (r_file b)) in
+  kwarg_filter_ref raw calls (r_start b) (r_end b) = false ->
+  (exists l, In l (slice_lines raw (r_start b) (r_end b)) /\ nonblank l = true /\ import_shaped (py_strip l) = false) ->
+  registry_ref configured custom calls raw (r_start b) (r_end b) = false.
+Proof. exact registry_spares_windows. Qed.
+Print Assumptions C03_registry_keeps_ordinary_windows.
+Theorem C03_text_filter_literals :
+  (forall t, dry_import_line_rejected t = negb (import_shaped t))
+  /\ (forall n, dry_logger_single n = (n =? 1))
+  /\ dry_logger_pattern = "^\s*(self\.)?(logger|logging|log)\.(debug|info|warning|error|critical|exception|log)\s*\("
+  /\ dry_logger_self = "self." /\ dry_logger_objs = logger_objs_ref /\ dry_logger_meths = logger_meths_ref
+  /\ (forall n, dry_reraise_len_bad n = negb (n =? 2))
+  /\ (forall a b, dry_is_except_raise a b = except_raise_ref a b)
+  /\ dry_registry = registry_names_ref /\ dry_filter_defaults = filter_defaults_ref.
+Proof. exact gen_text_filters. Qed.
+Print Assumptions C03_text_filter_literals.
+(* non-vacuity: the real shapes are accepted, near misses are not *)
+Example C03_text_filters_nonvacuous :
+  logger_filter_ref ["def f():"; "    self.logger.info ('x')"; ""] 2 3 = true
+  /\ logger_filter_ref ["logger.info('x')"; "logger.info('y')"] 1 2 = false
+  /\ logger_line_ref "loggerx.info('x')" = false
+  /\ reraise_filter_ref ["    except ValueError as e:"; ""; "        raise RuntimeError('x') from e"] 1 3 = true
+  /\ reraise_filter_ref ["    except ValueError as e:"; "        raise RuntimeError('x')"] 1 2 = false
+  /\ import_filter_ref ["import os"; ""; "from a import b"; "x = 1"] 1 3 = true
+  /\ import_filter_ref ["import os"; ""; "from a import b"; "x = 1"] 1 4 = false
+  /\ registry_ref true [("import_group_filter", false)] [] ["import os"; "from a import b"] 1 2 = false
+  /\ registry_ref false [("import_group_filter", false)] [] ["import os"; "from a import b"] 1 2 = true.
+Proof. vm_compute. repeat split; reflexivity. Qed.
 
 (* 12. Regression of the repaired finding q_overlap_asym (fix f9c5945): on its old witness the model under the vector
        claimed for the current tree now reports block Q of file 0 (lines 6-10) as well, equals the reference,
